@@ -16,6 +16,7 @@ import LW.Driver.C16
 import LW.Driver.C13
 import LW.Driver.C12
 import LW.Driver.C14
+import LW.Driver.C06
 
 open Lean LW.Driver
 
@@ -33,7 +34,8 @@ def handlers : List (String × (Json → R Json)) :=
    ("ptomo", handlePtomo),
    ("gate", handleC13),
    ("qconv", handleC12),
-   ("reck", LW.Driver.C14.handleC14)]
+   ("reck", LW.Driver.C14.handleC14),
+   ("c06", handleC06)]
 
 def dispatch (req : Json) : R Json := do
   let op ← asStr (← fld req "op")
